@@ -297,7 +297,87 @@ fn check_minmax(xs: &[f64], e: &Embedding, cfg: &Value, by_ref: bool, rep: &mut 
     }
 }
 
+/// C16 under rayon: empty and one-element inputs (slices, and parallel iterators a filter leaves
+/// empty) must give the documented sentinels / the exact single observation: bit for bit what the
+/// sequential collect gives.
+pub fn direct_rayon_tiny(rep: &mut Report) {
+    for &threads in &[1usize, 2, 4, 16] {
+        let p = pool(threads);
+        for xs in [vec![], vec![0.1], vec![-3.0], vec![7.5e29]] {
+            for adaptor in [None, Some(0u64), Some(1), Some(3)] {
+                for by_ref in [true, false] {
+                    let e = embedding("E0");
+                    let cfg = json!({"embedding": "E0", "n": xs.len(), "threads": threads, "by_ref": by_ref, "adaptor": adaptor, "data": xs, "max_len": Value::Null, "min_len": 1});
+                    rep.behaviours += 1;
+                    rep.nontrivial.insert(hash_str(&cfg.to_string()));
+                    let data: Vec<i64> = vec![0; xs.len()];
+                    let t = Truth { n: xs.len() as f64, mean: Rat::int(0), cm: vec![], abs_cm: vec![], sigma_v: 0.0, vmin: 0, vmax: 0 };
+                    let mut spread: Vec<Vec<f64>> = Vec::new();
+                    let guarded = std::panic::catch_unwind(std::panic::AssertUnwindSafe(|| p.install(|| {
+                        let rep = &mut *rep;
+                        check_type::<average::Mean>(&data, &xs, &e, &t, &cfg, by_ref, rep, &mut spread);
+                        check_type::<average::Variance>(&data, &xs, &e, &t, &cfg, by_ref, rep, &mut spread);
+                        check_type::<average::Skewness>(&data, &xs, &e, &t, &cfg, by_ref, rep, &mut spread);
+                        check_type::<average::Kurtosis>(&data, &xs, &e, &t, &cfg, by_ref, rep, &mut spread);
+                        check_type::<average::Moments4>(&data, &xs, &e, &t, &cfg, by_ref, rep, &mut spread);
+                        check_minmax(&xs, &e, &cfg, by_ref, rep);
+                    })));
+                    if guarded.is_err() {
+                        viol(rep, "collect", &e, "panic", "parallel collection of an empty / one-element input panicked".into(), cfg.clone());
+                    }
+                }
+            }
+        }
+    }
+    rep.sample(json!({"family": "rayon tiny", "inputs": ["[]", "[0.1]", "[-3]", "[7.5e29]"], "threads": [1, 2, 4, 16], "adaptors": ["none", "filter (padding right / left)", "chain(empty)"]}));
+}
+
+/// constant streams of a value that is not a multiple of a power of two, in chunks of every size
+/// the splitter produces: the pooled mean of two equal means may round one ulp away from them, and
+/// nothing may panic on that; len() exact, the statistics of a constant sample within the envelope
+/// (mean within 4 ulps, variances tiny)
+fn constant_streams(seed: u64, rep: &mut Report) {
+    for &x in &[0.1f64, 0.3, 1.0 / 3.0, 1e9 + 0.1, -7.7e-3] {
+        for &n in &[2usize, 3, 7, 64, 1000, 4097] {
+            let xs = vec![x; n];
+            for &threads in &[1usize, 4, 16] {
+                let p = pool(threads);
+                for max_len in [usize::MAX, 1, 3, 64] {
+                    for by_ref in [true, false] {
+                        let cfg = json!({"constant": x, "n": n, "threads": threads, "max_len": if max_len == usize::MAX { Value::Null } else { json!(max_len) }, "by_ref": by_ref, "seed": seed});
+                        rep.behaviours += 1;
+                        rep.nontrivial.insert(hash_str(&cfg.to_string()));
+                        let e = embedding("E0");
+                        let r = std::panic::catch_unwind(std::panic::AssertUnwindSafe(|| p.install(|| {
+                            let k: average::Kurtosis = <average::Kurtosis as MomT>::par_collect_limits(&xs, 1, max_len, by_ref);
+                            let m: average::Moments4 = <average::Moments4 as MomT>::par_collect_limits(&xs, 1, max_len, by_ref);
+                            (k.len(), k.mean(), k.population_variance(), m.len(), m.mean())
+                        })));
+                        rep.evaluations += 5;
+                        match r {
+                            Err(_) => viol(rep, "Kurtosis/Moments4", &e, "panic", format!("parallel collection of {} copies of {:e} panicked", n, x), cfg.clone()),
+                            Ok((kl, km, kv, ml, mm)) => {
+                                if kl != n as u64 || ml != n as u64 {
+                                    viol(rep, "Kurtosis/Moments4", &e, "len", format!("parallel len() = {} / {} but the input has {} items", kl, ml, n), cfg.clone());
+                                }
+                                let tol = 8.0 * (n as f64) * U * x.abs();
+                                if !((km - x).abs() <= tol) || !((mm - x).abs() <= tol) {
+                                    viol(rep, "Kurtosis/Moments4", &e, "mean", format!("mean of a constant sample {:e}: {:e} / {:e}", x, km, mm), cfg.clone());
+                                }
+                                if !(kv >= 0.0 && kv <= 64.0 * (n as f64) * U * x * x) {
+                                    viol(rep, "Kurtosis", &e, "population_variance", format!("variance of a constant sample {:e}: {:e}", x, kv), cfg.clone());
+                                }
+                            }
+                        }
+                    }
+                }
+            }
+        }
+    }
+}
+
 pub fn direct_rayon(seed: u64, max_n: usize, reps: usize, rep: &mut Report) {
+    constant_streams(seed, rep);
     let mut rng = Xoshiro256PlusPlus::seed_from_u64(seed);
     let alphabet = [-3i64, -1, 0, 2, 3];
     // 150,000: both halves of the top-level join hold more than 2^16 items
